@@ -3,7 +3,8 @@ from plib import *
 from props.builder import Prog, PProg
 from props.common import ProgRunner, parse
 
-LEAN_TARGETS = ["Plonk.Props.C05", "Plonk.Props.C05Perm", "Plonk.Props.WidgetTie"]
+EXTRA_AUDITS = ["ProverTie"]
+LEAN_TARGETS = ["Plonk.Props.C05", "Plonk.Props.C05Perm", "Plonk.Props.WidgetTie", "Plonk.Props.ProverTie"]
 ASSUMPTIONS = ["Fiat-Shamir challenges avoid the explicit bad-challenge sets (random-oracle assumption)",
                "KZG/pairing layer is exercised, not modelled, in this check (see C20)"]
 THEOREMS_NOTE = "Plonk/Props/C05.lean"
